@@ -33,7 +33,7 @@ QViol(e, needsrc, hasslen) ==
   \cup {c \in {ESZEROL} : e.dmax = 0 \/ (hasslen /\ e.slen = 0)}
   \cup {c \in {ESLEMAX} : e.dmax = HUGE \/ (hasslen /\ e.slen = HUGE)}
   \cup {c \in {EOVERFLOW} : e.dbos # UNK /\ e.dmax # HUGE /\ e.dmax > e.dbos}
-  \cup {c \in {EOVERFLOW, ESLEMAX} : hasslen /\ e.sbos # UNK /\ e.slen # HUGE /\ e.slen > e.sbos}
+  \cup {c \in {EOVERFLOW, ESLEMAX} : hasslen /\ e.sbos # UNK /\ (e.slen = HUGE \/ e.slen > e.sbos)}
 QErrs(e, V) == {[ErrOut(c, Same0(e.pre)) EXCEPT !.ret = {0, -3, -1}] : c \in V}
 QOk(e) == [OkOut(Same0(e.pre)) EXCEPT !.rtag = {"C10"}]
 QStatus(e, rc) == [StatusOut(rc, Same0(e.pre)) EXCEPT !.rtag = {"C10"}]
@@ -120,8 +120,13 @@ MemCmpOutcomes(e) ==
 (* ---- searches ---- *)
 MatchAt(D, S, i, fold) == i + Len(S) - 1 <= Len(D) /\ \A j \in 1..Len(S) : (IF fold THEN UpA(D[i + j - 1]) = UpA(S[j]) ELSE D[i + j - 1] = S[j])
 FindOutcomes(e) ==
-  LET V == QViol(e, TRUE, TRUE) IN
-  IF (V \ {ESZEROL, ESLEMAX} # {} \/ e.dmax = 0 \/ e.dmax = HUGE) \/ (e.slen = HUGE /\ (e.pre[e.s] # 0 \/ e.fn = "strpbrk_s")) THEN QErrs(e, V)
+  LET V == QViol(e, TRUE, TRUE)
+      \* the slen constraints (zero, above the limit, above the known size of src) may be pre-empted by the empty needle, which the
+      \* search functions look for first ("slen shall not be 0, when *src != 0"); every other violation comes first
+      Vslen == {ESZEROL, ESLEMAX} \cup (IF e.sbos # UNK /\ (e.slen = HUGE \/ e.slen > e.sbos) /\ e.s # NULLP /\ e.d # NULLP /\ e.flags = 0
+                                           /\ (e.dbos = UNK \/ e.dmax = HUGE \/ e.dmax <= e.dbos) /\ e.fn # "strpbrk_s" /\ e.pre[e.s] = 0 THEN {EOVERFLOW} ELSE {})
+  IN
+  IF (V \ Vslen # {} \/ e.dmax = 0 \/ e.dmax = HUGE) \/ (e.slen = HUGE /\ (e.pre[e.s] # 0 \/ e.fn = "strpbrk_s")) THEN QErrs(e, V)
   ELSE LET D == Str(e.pre, e.d, e.dmax)
            S == Str(e.pre, e.s, e.slen)
            notf == WithRet(QStatus(e, ESNOTFND), {0})
